@@ -77,6 +77,7 @@ func scenario(maxRetries int, rfIdx int, elapsed bool, cancelling bool) *explore
 			return o, nil
 		})
 		out, err := h(msg)
+		returnedAt := vs.VirtualNow()
 		cfg := fmt.Sprintf("MaxRetries=%d Initial=%v Mult=%v MaxInterval=%v RF=%v MaxElapsed=%v attemptTakes=%v failures=%d cancelAt=%d", maxRetries, initial, mult, maxInt, rf, maxElapsed, attemptTakes, failures, cancelAt)
 		calls := len(atts)
 		limit := 1 + maxRetries
@@ -93,6 +94,14 @@ func scenario(maxRetries int, rfIdx int, elapsed bool, cancelling bool) *explore
 		}
 		if stoppedEarly && calls > wantCalls {
 			vs.Fail("attempt-count", "%s: handler invoked %d times, more than %d", cfg, calls, wantCalls)
+		}
+		// giving up before the attempts are used up needs a reason: the context ended, or MaxElapsedTime has passed
+		if stoppedEarly && calls < wantCalls && calls > 0 {
+			ctxEnded := cancelAt >= 0 && cancelAt < calls
+			elapsedPassed := maxElapsed > 0 && returnedAt-atts[0].end >= maxElapsed
+			if !ctxEnded && !elapsedPassed {
+				vs.Fail("gives-up-only-with-reason", "%s: gave up after %d of %d attempts, %v after the first failure, although the message context is live and MaxElapsedTime has not passed", cfg, calls, wantCalls, returnedAt-atts[0].end)
+			}
 		}
 		succeeded := calls > failures
 		if succeeded {
